@@ -21,6 +21,7 @@ THEOREMS = ["EngineModel.Properties.C05." + t for t in [
     "C05_decode_steps_shape_v1_beat", "C05_decode_steps_shape_v1_ovw", "C05_decode_steps_shape_v1_hires",
     "C05_iteration_consumes", "C05_loop_consumes_exact", "C05_decode_reads_faithful", "C05_iteration_reads",
     "C05_decode_reads",
+    "C05_uncompress_replay_eq_unz", "C05_replay_fuel", "C05_fromBlob_safe",
 ]]
 ASSUMPTIONS = [
     "zlib is not modelled: the theorem about the decompression loops is generic in an inflate oracle that honours the "
